@@ -170,7 +170,7 @@ def drain_before_restore(ctx, db):
     lams = lambdas_of(db, 'cocls::coro_queue::install_queue_and_call')
     if not lams:
         raise Broken('anchor vanished: trailer lambda of install_queue_and_call')
-    T = Tracer(db, depth=0)
+    T = htracer(db)
     seen = set()
     for lf in lams:
         if lf['key'] in seen:
@@ -201,6 +201,13 @@ def drain_before_restore(ctx, db):
         tr_ = next((e for e in evl if e.k == 'construct' and norm(e.get('callee')) == 'cocls::trailer::trailer'), None)
         dt = next((e for e in evl if e.k == 'dtor' and 'trailer' in (e.get('type') or '')), None)
         ok = ex is not None and tr_ is not None and dt is not None and 'queue_impl::instance' in (ex['args'][1].get('path') or '')
+        if ex is None and tr_ is not None and dt is not None:
+            # the same without std::exchange (the flag is thread-local): previous value read into a local, then the thread's queue assigned, both before the trailer
+            sv = next((e for e in evl if e.k == 'decl' and (e.get('init') or '') == INSTANCE), None)
+            wr = next((e for e in evl if e.k == 'write' and (e.get('path') or '') == INSTANCE and 'queue_impl::instance' in (e.get('rhs') or '')), None)
+            T0 = Tracer(db, depth=0)
+            ok = sv is not None and wr is not None and all((index_of(tr, lambda ev: ev.get('id') == sv['id'] and ev.k == 'decl') < index_of(tr, lambda ev: ev.get('id') == wr['id'] and ev.k == 'write') < index_of(tr, lambda ev: ev.get('id') == tr_['id'] and ev.k == 'construct'))
+                                                            and index_of(tr, lambda ev: ev.get('id') == sv['id'] and ev.k == 'decl') >= 0 for tr in T0.traces(f) if live(tr))
         ctx.ob(rid, f, f['key'], ok, 'install_queue_and_call saves the previous flag by exchange, installs the thread\'s queue and arms a trailer whose destructor runs on every exit',
                desc='install_queue_and_call no longer exchange+trailer')
     for f in db.need('cocls::trailer::~trailer')[:1]:
@@ -275,7 +282,7 @@ def fifo_ops(ctx, db):
                 ctx.ob(rid, f, e['loc'], False, 'ready-queue operation %s is not one of the FIFO operations' % op, desc='non-FIFO operation %s on the ready queue in %s' % (op, f['nname']))
                 continue
             allowed = RQ_OPS[op]
-            ctx.ob(rid, f, e['loc'], allowed is None or f['nname'] in allowed, '%s on the ready queue from %s' % (op, f['nname']), desc='%s on the ready queue from %s' % (op, f['nname']))
+            ctx.ob(rid, f, e['loc'], allowed is None or who_ok(db, f, allowed), '%s on the ready queue from %s' % (op, f['nname']), desc='%s on the ready queue from %s' % (op, f['nname']))
     found = who(db, lambda f, e: e.k == 'call' and norm(e.get('callee')) in ('cocls::coro_queue::swap_coroutine', 'cocls::coro_queue::resume_handle_next'))
     for fname, lst in found.items():
         f, e = lst[0]
@@ -286,23 +293,24 @@ def fifo_ops(ctx, db):
 
 def pause_rule(ctx, db):
     rid = ctx.rule('C05.pause-round-robin', 'ORDER', 'pause::await_suspend appends the pausing coroutine at the tail before it takes the head, removes the head, and transfers to exactly that head', floor=1)
-    for f, trs in traces_of(db, 'cocls::pause::await_suspend', depth=0, per_instance=False):
+    in_queue = lambda caller, ev, callee: class_of(db, callee).startswith('cocls::coro_queue')      # push()/pop() style helpers of the queue
+    for f, trs in traces_of(db, 'cocls::pause::await_suspend', depth=0, inline=in_queue, per_instance=False):
         trs = [t for t in trs if live(t)]
         ctx.paths(rid, len(trs))
         bad = None
         for tr in trs:
-            ops = [(i, norm(it.get('callee') or '').split('::')[-1], it) for i, it in enumerate(tr) if it.k == 'call' and efield(f, it) == RQ]
+            ops = [(i, norm(it.get('callee') or '').split('::')[-1], it) for i, it in enumerate(tr) if it.k == 'call' and (norm(it.get('field') or '') == RQ or (it.get('depth', 0) == 0 and efield(f, it) == RQ))]
             names = [o[1] for o in ops]
             if names[:3] != ['push_back', 'front', 'pop_front'] or len(names) != 3:
                 bad = bad or ('ready-queue operations are %s, expected push_back, front, pop_front' % names, tr); continue
-            if (ops[0][2].get('args') or [{}])[0].get('path') != 'param:h':
+            if re.sub(r'^(ctor|move)\((.*)\)$', r'\2', (ops[0][2].get('args') or [{}])[0].get('path') or '') != 'param:h':
                 bad = bad or ('the pausing coroutine itself is not what is appended', tr)
             ret = [it for it in tr if it.k == 'return']
             o = value_origin(f, f.ev(ret[-1].get('ret_ev'))) if ret and ret[-1].get('ret_ev') is not None and f.ev(ret[-1].get('ret_ev')) is not None else None
             if not ret or not ((ret[-1].get('path') or '') == 'param:h' or (o is not None and o.get('id') == ops[1][2].get('id'))):
                 pass
             wr = [it for it in tr if it.k == 'call' and norm(it.get('callee') or '').endswith('operator=') and it.get('recv') == 'param:h']
-            if not wr and not (o is not None and norm(o.get('callee') or '') == 'std::deque::front'):
+            if not wr and not (o is not None and norm(o.get('callee') or '') == 'std::deque::front') and origin_in_trace(tr, len(tr), ret_expr(tr))[0] != 'call(std::deque::front)':
                 bad = bad or ('the coroutine transferred to is not the head taken from the queue', tr)
         ctx.ob(rid, f, f['key'], bad is None, 'push_back(self) < front < pop_front, transfer to the head' + ('' if not bad else ' -- ' + bad[0]), desc=bad[0] if bad else None,
                trace=fmt_trace(bad[1]) if bad else None)
